@@ -473,7 +473,9 @@ def from_json(
     return from_json(v, _typename_resolved=True, **kwargs)
 
   if isinstance(json_value, list):
-    if json_value and json_value[0] == JSONConvertible.TUPLE_MARKER:
+    if (json_value
+        and isinstance(json_value[0], str)
+        and json_value[0] == JSONConvertible.TUPLE_MARKER):
       if len(json_value) < 2:
         raise ValueError(
             f'Tuple should have at least one element '
